@@ -89,3 +89,21 @@ Theorem C06_reference_rendering_of_a_response_names_every_member :
   /\ List.length response_ref_fields = List.length (fields_of gen_env "ResponseProps").
 Proof. vm_compute. split; reflexivity. Qed.
 Print Assumptions C06_reference_rendering_of_a_response_names_every_member.
+
+(* ... and that transcription is tied to the source: the translator regenerates, for every MarshalJSON that encodes a literal of an
+   anonymous struct type, the members the type declares and the members the literal fills.  Every declared member is filled (F29
+   breaks exactly this), and the hand-written alternative renderings of Response and SecurityScheme declare the regenerated members,
+   in the regenerated order. *)
+Theorem C06_alternative_renderings_fill_every_member_they_declare :
+  forallb (fun e => forallb (fun d => mem_str (fst d) (snd (snd e))) (fst (snd e))) gen_inline_structs = true.
+Proof. vm_compute. reflexivity. Qed.
+Print Assumptions C06_alternative_renderings_fill_every_member_they_declare.
+Theorem C06_alternative_renderings_are_the_transcribed_ones :
+  assoc "Response" gen_inline_structs <> None /\ assoc "SecurityScheme" gen_inline_structs <> None /\
+  (forall d f, assoc "Response" gen_inline_structs = Some (d, f) -> d = map (fun g => (f_go g, f_json g)) response_ref_fields) /\
+  (forall d f, assoc "SecurityScheme" gen_inline_structs = Some (d, f) -> d = map (fun g => (f_go g, f_json g)) secscheme_plain_fields).
+Proof.
+  split; [vm_compute; discriminate|]. split; [vm_compute; discriminate|].
+  split; intros d f H; vm_compute in H; inversion H; reflexivity.
+Qed.
+Print Assumptions C06_alternative_renderings_are_the_transcribed_ones.
